@@ -10,6 +10,11 @@ def oracle(k, w):
         m = wo.check_capture(w, lane, k.tcap)
         if m:
             return f'lane {lane}: {m}'
+    g = wk.run_case(k, cuda=True)      # the GPU capture kernel summarises the same waveforms
+    for lane in range(k.sims):
+        m = wo.check_capture(g, lane, k.tcap)
+        if m:
+            return f'WaveSimCuda lane {lane}: {m}'
     # overflow indicator clear => identical to the waveform computed with unlimited capacity
     big = wk.run_case(k, caps=64, reuse=False)
     s = np.asarray(w.s)
@@ -42,9 +47,9 @@ def oracle(k, w):
 def run(ck):
     if THEOREMS:
         ck.prove('C13', THEOREMS)
-    fails, mism = wk.campaign(ck, ck.scale(40, 1200), oracle, gen_kw={'with_actrl': True, 'allow_dangling': False}, coq_lanes=1, coq_every=2)
+    fails, mism = wk.campaign(ck, ck.scale(40, 1200), oracle, gen_kw={'with_actrl': True, 'allow_dangling': False}, coq_lanes=1, coq_every=2, stress_every=3)
     ck.rule('random circuits x delays x capacities (incl. overflowing) x capture times (incl. ties with entries) x accumulation-control '
-            'tables (shared accumulators, weights 0..3); oracle: recount from the stored waveforms, rerun with capacity 64')
+            'tables (shared accumulators, weights 0..3); oracle: recount from the stored waveforms (CPU and GPU capture), rerun with capacity 64')
     wk.report(ck, fails, mism, 'wavesim:capture', 'wave_sim.WaveSim capture/abuf')
 
 
